@@ -194,3 +194,19 @@ Example C20_cyclic_debug_vprint :
   /\ vprint_doc ex_cyclic 0 = Ok (false, [Alpha 1; Alpha 0])
   /\ vprint_doc ex_cyclic 3 = Ok (false, []).
 Proof. repeat split; vm_compute; reflexivity. Qed.
+
+(** ** on every graph reached through the interface *)
+
+From Sodg Require Import Wf.
+
+Theorem C20_reachable_inspect_terminates :
+  forall n cap os v,
+  within_limits n cap sinit os -> Forall wf_op os -> v < cap ->
+  exists g ls, Spec.run n (op_empty cap) os = Ok (g, snd (srun sinit os)) /\ inspect_doc g v = Ok ls.
+Proof. exact reachable_inspect_terminates. Qed.
+
+Check C20_reachable_inspect_terminates :
+  forall n cap os v,
+  within_limits n cap sinit os -> Forall wf_op os -> v < cap ->
+  exists g ls, Spec.run n (op_empty cap) os = Ok (g, snd (srun sinit os)) /\ inspect_doc g v = Ok ls.
+Print Assumptions C20_reachable_inspect_terminates.
